@@ -23,9 +23,13 @@ package ingress
 
 // reading the certificate's subject must not assume that a certificate was
 // parsed: file:// references (and such a default certificate) carry none
+// (C17/C01) the acme storage acquired for a tls block is the namespaced secret
+// and the ingress is linked to exactly that storage name
 //@ func (*converter).syncIngressHTTP
-//@   props C15
+//@   props C15 C17 C01
 //@   safe x509.Certificate
+//@   at call Acquire#1 assert storage: $arg1 == secretName && secretName == ing.Namespace + "/" + tls.SecretName && ingName == ing.Namespace + "/" + ing.Name
+//@   at call TrackNames#1 assert acme-link: $arg1 == convtypes.ResourceIngress && $arg2 == ingName && $arg3 == convtypes.ResourceAcmeData && $arg4 == secretName
 //@ end
 
 //@ func (*converter).syncIngressTCP
@@ -69,7 +73,6 @@ package ingress
 // IngressClass <-> reader, linked before the class is read (also when the read fails)
 //@ func (*converter).readIngressClass
 //@   props C01
-//@   requires c != nil && source != nil
 //@   ensures tracked: calls(GetIngressClass) == (ingressClassName != nil ? 1 : 0) && calls(TrackNames) == calls(GetIngressClass)
 //@   at call TrackNames#1 assert link: $arg1 == convtypes.ResourceIngressClass && $arg2 == *ingressClassName && $arg3 == source.Type && $arg4 == source.Namespace + "/" + source.Name
 //@   at call GetIngressClass#1 assert first: calls(TrackNames) == 1 && $arg1 == *ingressClassName
@@ -78,7 +81,6 @@ package ingress
 // ConfigMap <-> IngressClass, linked before the ConfigMap is read
 //@ func (*converter).parseParameters
 //@   props C01
-//@   requires c != nil && ingressClass != nil
 //@   ensures tracked: calls(TrackNames) == calls(GetConfigMap) && calls(GetConfigMap) <= 1
 //@   at call TrackNames#1 assert link: $arg1 == convtypes.ResourceConfigMap && $arg2 == configMapName && $arg3 == convtypes.ResourceIngressClass && $arg4 == ingressClass.Name
 //@   at call GetConfigMap#1 assert first: calls(TrackNames) == 1 && $arg1 == configMapName
@@ -87,7 +89,6 @@ package ingress
 // reader <-> host, on every call
 //@ func (*converter).addHost
 //@   props C01
-//@   requires c != nil && source != nil
 //@   ensures tracked: calls(TrackNames) == 1
 //@   at call TrackNames#1 assert link: $arg1 == source.Type && $arg2 == source.Namespace + "/" + source.Name && $arg3 == convtypes.ResourceHAHostname && $arg4 == hostname
 //@ end
@@ -95,7 +96,6 @@ package ingress
 // reader <-> tcp service, whenever the service is handed out
 //@ func (*converter).addTCPService
 //@   props C01
-//@   requires c != nil && source != nil
 //@   ensures tracked: result.1 == nil ==> calls(TrackNames) == 1
 //@   at call TrackNames#1 assert link: $arg1 == source.Type && $arg2 == source.Namespace + "/" + source.Name && $arg3 == convtypes.ResourceHATCPService && $arg4 == hostname
 //@ end
@@ -104,7 +104,6 @@ package ingress
 // path including the failed read; on success also reader <-> backend
 //@ func (*converter).addBackendWithClass
 //@   props C01
-//@   requires c != nil && source != nil && pathLink != nil
 //@   ensures svc-tracked:  calls(GetService) == 1 && calls(TrackRefName) >= 1
 //@   ensures back-tracked: result.1 == nil ==> calls(TrackNames) >= 1
 //@   at call GetService#1 assert read: $arg1 == source.Namespace && $arg2 == fullSvcName
@@ -116,6 +115,51 @@ package ingress
 // to the service, so that the ingress is retried when the service shows up
 //@ func (*converter).addDefaultHostBackend
 //@   props C01
-//@   requires c != nil && source != nil
 //@   at call TrackNames#1 assert link: $arg1 == source.Type && $arg2 == source.Namespace + "/" + source.Name && $arg3 == convtypes.ResourceService && $arg4 == fullSvcName
+//@ end
+
+// ---------------------------------------------------------------------------
+// C03 — endpoints that are not ready (and terminating pods) become servers only
+// under drain-support, and then with weight 0; ready ones always do
+//@ count DrainFlag = (*annotations.ConfigValue).Bool
+//@ func (*converter).addEndpoints
+//@   props C03 C01
+//@   at call AcquireEndpoint#1 assert ready:    $arg1 == ready[$idx(1)-1].IP && $arg2 == ready[$idx(1)-1].Port
+//@   at call AcquireEndpoint#2 assert drain:    calls(DrainFlag) == 1 && last(DrainFlag) && $arg1 == notReady[$idx(2)-1].IP
+//@   at call AcquireEndpoint#3 assert draining: calls(DrainFlag) == 1 && last(DrainFlag)
+//@   at call GetTerminatingPods#1 assert tracked: $arg1 == svc && len($arg2) == 1 && $arg2[0].Context == convtypes.ResourceHABackend && $arg2[0].UniqueName == backend.ID
+//@   at call Get#1 assert key: $arg1 == ingtypes.GlobalDrainSupport
+//@   assume-pre Mapper).Get
+//@ end
+
+// added *and* updated ingresses are pre-tracked: every one of them is visited,
+// and each rule host is linked to the ingress before the dirty set is computed
+//@ count ReadKey = (*converter).readConfigKey
+//@ func (*converter).trackAddedIngress
+//@   props C01
+//@   lemma covers: calls(ReadKey) == old(len(c.changed.IngressesAdd)) + old(len(c.changed.IngressesUpd))
+//@   loop 1 invariant seen: calls(ReadKey) == $idx(1) && 0 <= $idx(1) && $idx(1) <= len($rng(1)) && len($rng(1)) == old(len(c.changed.IngressesAdd)) + old(len(c.changed.IngressesUpd))
+//@   loop 2 invariant seen: calls(ReadKey) == $idx(1) && $idx(1) <= len($rng(1)) && len($rng(1)) == old(len(c.changed.IngressesAdd)) + old(len(c.changed.IngressesUpd))
+//@   loop 3 invariant seen: calls(ReadKey) == $idx(1) && $idx(1) <= len($rng(1)) && len($rng(1)) == old(len(c.changed.IngressesAdd)) + old(len(c.changed.IngressesUpd))
+//@   at call TrackNames#2 assert host: $arg1 == convtypes.ResourceIngress && $arg2 == name && $arg3 == ctx
+//@   at call TrackNames#1 assert back: $arg1 == convtypes.ResourceIngress && $arg2 == name && $arg3 == convtypes.ResourceHABackend && $arg4 == backend.ID
+//@   at call TrackNames#3 assert back: $arg1 == convtypes.ResourceIngress && $arg2 == name && $arg3 == convtypes.ResourceHABackend && $arg4 == backend.ID
+//@ end
+
+// the dirty objects removed are exactly the projections of the tracker query
+// over this batch's links; an ingress that was deleted *and* re-created in the
+// same batch is synced (additions are merged after removals), deleted ones are not
+//@ spec func ingFullName(i *networking.Ingress) string = i.Namespace + "/" + i.Name
+//@ func (*converter).syncPartial
+//@   props C01
+//@   at call QueryLinks#1 assert batch: $arg1 == c.changed.Links && $arg2
+//@   at call TCPServices).RemoveAll#1 assert tcp:   $arg1 == dirtyTCPServices
+//@   at call Hosts).RemoveAll#1 assert hosts: $arg1 == dirtyHosts
+//@   at call RemoveAuthBackendByTarget#1 assert auth: $arg1 == dirtyBacks
+//@   at call Backends).RemoveAll#1 assert backs: $arg1 == dirtyBacks
+//@   at call Userlists).RemoveAll#1 assert users: $arg1 == dirtyUsers
+//@   at call AcmeStorages).RemoveAll#1 assert acme:  $arg1 == dirtyStorages
+//@   assume-pre RemoveAuthBackendByTarget sortIngress
+//@   loop 3 invariant added: 0 <= $idx(3) && forall a int :: 0 <= a && a < $idx(3) ==> in(ingFullName(c.changed.IngressesAdd[a]), ingMap) && ingMap[ingFullName(c.changed.IngressesAdd[a])] != nil
+//@   loop 4 entry added: forall a int :: 0 <= a && a < len(c.changed.IngressesAdd) ==> in(ingFullName(c.changed.IngressesAdd[a]), ingMap) && ingMap[ingFullName(c.changed.IngressesAdd[a])] != nil
 //@ end
